@@ -411,6 +411,43 @@ def result_fwd(ctx, obs, rule='FWD'):
             obs.check(ok, rule, q, f'extract_variances receives {src}', f'`{norm(c.node)[:90]}`', '', where(prog, f, c.node))
 
 
+def _var_kind(name: str):
+    n = name.lower()
+    ks = [k for k, keys in (('model', ('model',)), ('diff', ('diff',)), ('nc', ('nc_', '_nc', 'noise', 'ceil'))) if any(x in n for x in keys)]
+    if n == 'nc':
+        ks.append('nc')
+    return ks[0] if len(set(ks)) == 1 else None
+
+
+def _copy_env(stmts, env, calls):
+    """name -> (names that hold the same value, defining expressions) after the statements; copies (`a = b`) are followed, the arms
+    of an if are joined.  calls[id(call)] = {name: aliases at the time of the call} for every call that defines a name."""
+    for st in stmts:
+        if isinstance(st, ast.Assign) and len(st.targets) == 1 and isinstance(st.targets[0], ast.Name):
+            t = st.targets[0].id
+            if isinstance(st.value, ast.Name):
+                a, d = env.get(st.value.id, ({st.value.id}, set()))
+                env[t] = (set(a) | {t, st.value.id}, set(d))
+            else:
+                if isinstance(st.value, ast.Call):
+                    calls[id(st.value)] = {x.id: set(env.get(x.id, ({x.id}, set()))[0]) | {x.id}
+                                           for x in st.value.args if isinstance(x, ast.Name)}
+                env[t] = ({t}, {st.value})
+        elif isinstance(st, ast.If):
+            e1 = {k: (set(a), set(d)) for k, (a, d) in env.items()}
+            e2 = {k: (set(a), set(d)) for k, (a, d) in env.items()}
+            _copy_env(st.body, e1, calls)
+            _copy_env(st.orelse, e2, calls)
+            for k in set(e1) | set(e2):
+                a1, d1 = e1.get(k, ({k}, set()))
+                a2, d2 = e2.get(k, ({k}, set()))
+                env[k] = (a1 | a2, d1 | d2)
+        else:
+            for x in ast.walk(st):
+                if isinstance(x, ast.Name) and isinstance(x.ctx, ast.Store):
+                    env[x.id] = ({x.id}, {st})
+
+
 def uniform(ctx, obs, rule='UNIFORM'):
     prog = ctx.prog
     q = U + 'extract_variances'
@@ -430,26 +467,60 @@ def uniform(ctx, obs, rule='UNIFORM'):
     if ret_names is None:
         obs.unk(rule, q, 'returned variance triple', 'return is not a 3-tuple of names')
         return
+    # the returned triple is (model, difference, noise-ceiling): Result.__init__ and every caller unpack it in this order
+    ret_node = next(node for node, _, _ in r0.returns if node is not None and isinstance(node.value, ast.Tuple)
+                    and len(node.value.elts) == 3)
+    ret_order = [e.id for e in ret_node.value.elts]
+    want_kind = ['model', 'diff', 'nc']
     for arm in arms:
         nd = arm.test.comparators[0].value
-        corr = [s for s in arm.body if isinstance(s, ast.Assign) and isinstance(s.value, ast.Call)
-                and _leaf(s.value.func) in ('_correct_1d', '_dual_bootstrap')]
-        names = {s.targets[0].id for s in corr if isinstance(s.targets[0], ast.Name)}
-        obs.check(ret_names <= names, rule, q,
-                  f'ndim={nd}: model, noise-ceiling and difference variances are all corrected',
-                  f'corrected: {sorted(names)}', '', where(prog, f, arm))
-        sigs = {(_leaf(s.value.func), tuple(ast.dump(a) for a in s.value.args[1:]),
-                 tuple((k.arg, ast.dump(k.value)) for k in s.value.keywords)) for s in corr}
-        obs.check(len(sigs) == 1, rule, q, f'ndim={nd}: the three outputs receive the same correction with the same n arguments',
-                  f'{len(sigs)} different correction calls: {[norm(s.value)[:60] for s in corr]}', '', where(prog, f, arm))
-        for s in corr:
-            ok = isinstance(s.targets[0], ast.Name) and s.value.args and isinstance(s.value.args[0], ast.Name) \
-                and s.value.args[0].id == s.targets[0].id
-            obs.check(ok, rule, q, f'ndim={nd}: {norm(s.targets[0])} is the correction of itself',
-                      f'`{norm(s)[:80]}` corrects another quantity', '', where(prog, f, s))
+        env, calls = {}, {}
+        _copy_env(arm.body, env, calls)
         want = '_dual_bootstrap' if nd == 3 else '_correct_1d'
-        obs.check(all(_leaf(s.value.func) == want for s in corr), rule, q, f'ndim={nd}: correction helper is {want}',
-                  f'{[_leaf(s.value.func) for s in corr]}', '', where(prog, f, arm))
+        found = []
+        for pos, rn in enumerate(ret_order):
+            aliases, defs = env.get(rn, ({rn}, set()))
+            cdefs = [d for d in defs if isinstance(d, ast.Call) and _leaf(d.func) in ('_correct_1d', '_dual_bootstrap')]
+            if len(defs) != 1 or len(cdefs) != 1:
+                if defs and not cdefs and all(not any(isinstance(x, ast.Call) and not _leaf(x.func) in ('array', 'diag', 'einsum', 'expand_dims')
+                                                        for x in ast.walk(d)) for d in defs):
+                    obs.bad(rule, q, f'ndim={nd}: the {want_kind[pos]} variances are corrected',
+                            f'output {pos} (`{rn}`) reaches the return without passing through {want}', where(prog, f, arm))
+                else:
+                    obs.unk(rule, q, f'ndim={nd}: the {want_kind[pos]} variances are corrected',
+                            f'output {pos} (`{rn}`) has {len(defs)} definitions in this arm, {len(cdefs)} of them correction calls')
+                continue
+            call = cdefs[0]
+            found.append(call)
+            obs.ok(rule, q, f'ndim={nd}: the {want_kind[pos]} variances are corrected', norm(call)[:80], where(prog, f, call))
+            obs.check(_leaf(call.func) == want, rule, q, f'ndim={nd}: output {pos} is corrected with {want}',
+                      f'`{norm(call)[:80]}`', '', where(prog, f, call))
+            # the corrected quantity is the one of this position: the names along its copy chain say which it is
+            a0 = call.args[0] if call.args else None
+            if not isinstance(a0, ast.Name):
+                obs.unk(rule, q, f'ndim={nd}: output {pos} is the correction of the {want_kind[pos]} variances', f'argument `{norm(a0)[:60]}`')
+                continue
+            hints = {_var_kind(x) for x in calls.get(id(call), {}).get(a0.id, {a0.id})} - {None}
+            hints_out = {_var_kind(x) for x in aliases} - {None}
+            if len(hints) == 1 and hints != {want_kind[pos]}:
+                obs.bad(rule, q, f'ndim={nd}: output {pos} is the correction of the {want_kind[pos]} variances',
+                        f'`{norm(call)[:80]}` corrects the {sorted(hints)[0]} variances and returns them as output {pos} '
+                        f'(the {want_kind[pos]} variances)', where(prog, f, call))
+            elif len(hints_out) == 1 and hints_out != {want_kind[pos]}:
+                obs.bad(rule, q, f'ndim={nd}: output {pos} is the correction of the {want_kind[pos]} variances',
+                        f'the {sorted(hints_out)[0]} variances are returned as output {pos} (the {want_kind[pos]} variances)',
+                        where(prog, f, ret_node))
+            elif len(hints) == 1:
+                obs.ok(rule, q, f'ndim={nd}: output {pos} is the correction of the {want_kind[pos]} variances', norm(call)[:80],
+                       where(prog, f, call))
+            else:
+                obs.unk(rule, q, f'ndim={nd}: output {pos} is the correction of the {want_kind[pos]} variances',
+                        f'the names {sorted(calls.get(id(call), {}).get(a0.id, {a0.id}))} do not say which variances these are')
+        if len(found) == 3:
+            sigs = {(_leaf(c.func), tuple(ast.dump(a) for a in c.args[1:]), tuple((k.arg, ast.dump(k.value)) for k in c.keywords))
+                    for c in found}
+            obs.check(len(sigs) == 1, rule, q, f'ndim={nd}: the three outputs receive the same correction with the same n arguments',
+                      f'{len(sigs)} different correction calls: {[norm(c)[:60] for c in found]}', '', where(prog, f, arm))
     # nc_included arms: model variances exclude the two ceiling rows; contrasts use the model block
     for n in ast.walk(f.node):
         if isinstance(n, ast.If) and isinstance(n.test, ast.Name) and n.test.id == 'nc_included':
@@ -464,16 +535,6 @@ def uniform(ctx, obs, rule='UNIFORM'):
                     ok = not any(isinstance(x, ast.BinOp) and isinstance(x.op, ast.Sub) for x in ast.walk(s.value))
                     obs.check(ok, rule, q, 'without ceilings the contrast matrix spans all rows', f'`{norm(s)[:80]}`', '',
                               where(prog, f, s))
-    r = ctx.dep.result(q)
-    for node, _, _ in r.returns:
-        if node is not None and isinstance(node.value, ast.Tuple):
-            names = [norm(e) for e in node.value.elts]
-            kinds = ['model' in names[0], 'diff' in names[1], 'nc' in names[2] or 'noise' in names[2]] if len(names) == 3 else []
-            if len(names) == 3 and not any(('model' in n) or ('diff' in n) or ('nc' in n) or ('noise' in n) for n in names):
-                obs.unk(rule, q, 'returns (model, difference, noise-ceiling) variances in this order', f'{names}')
-            else:
-                obs.check(all(kinds) and bool(kinds), rule, q, 'returns (model, difference, noise-ceiling) variances in this order',
-                          f'{names}', '', where(prog, f, node))
 
 
 def clamp(ctx, obs, rule='CLAMP'):
